@@ -56,7 +56,7 @@ def strat_io():
             missing = (draw(st.integers(0, len(ids) - 1)), draw(st.sampled_from(["logits", "characters", "logit_coords"])),
                        draw(st.booleans()))
         return dict(lines=lines, ids2=ids2, nreg=nreg, via=draw(st.sampled_from(["path", "bytes"])), missing=missing,
-                    legacy=draw(st.integers(0, 5)) == 0, floor=draw(st.sampled_from([-80, -80, -30, -100.5])))
+                    legacy=draw(st.integers(0, 5)) == 0, floor=draw(st.sampled_from([-80, -80, -30, -100.5, 0, 0.0, -1e-3, 5])))
     return case()
 
 
